@@ -1536,7 +1536,7 @@ impl Check for W5Check {
             "C09" => format!("{base}C09: one writer appends g(i) (all distinct) in batches around the page capacity with write/flush/commit; 1-2 readers observe len through read-only clones and then read below it via collect_range / collect_one / cursor / for_each (mmap and file-I/O back-ends): every value must equal g(i), lengths never decrease, no panic, no deadlock"),
             "C10" => format!("{base}C10: each thread runs create/append/write_at/truncate/rename/remove/flush/compact ops on its own regions (and pushes+writes its own vector) and compares its regions with its own model after every op; at quiescence the C02 extent invariant and every model are checked; one thread may hold a Reader on another thread's append-only region while that region is relocated, flushed and its old extent reused: bytes below the snapshot length must be the original ones"),
             "C12" => format!("{base}C12 (racing-writer half): one thread runs compact() inline or as a deferred background task while others append to / truncate / flush their own regions; each writer's model comparison after every op and at the end detects a tail punched after it was written; extent invariants at quiescence"),
-            _ => format!("{base}C11: 1-3 ops per thread drawn from the public-API catalogue (small/growing/relocating appends, positional writes, truncate, rename, remove, create, flush, region flush, inline and background compact + sync_bg_tasks, short-lived readers, vector push+write/flush/commit/rollback for raw and compressed formats incl. page-index growth, reads through clones via mmap / file-I/O sources, cursor); verdict = the controller's 'no thread enabled, not all finished, no timer pending'"),
+            _ => format!("{base}C11: 1-3 ops per thread drawn from the public-API catalogue (small/growing/relocating appends, positional writes, truncate, rename, remove, create, flush, region flush, inline and background compact + sync_bg_tasks, short-lived readers, vector push+write/flush/commit/rollback for raw and compressed formats incl. page-index growth, reads through clones via mmap / file-I/O sources, cursor); verdict = the controller's 'no thread enabled, not all finished, no timer pending'. Every finished run additionally yields its nested lock acquisitions; cycles of 1-3 threads in that relation (read/read edges only with an exclusive arrival of a further thread) are candidates, and up to 3 (quick) / 6 (thorough) of them per run are confirmed by executing the same program again with the cycle's threads held at those acquisitions (4 / 8 attempts, serial and random approach) - only a reached blocked-forever state is reported, never a predicted cycle"),
         }
     }
     fn assumptions(&self) -> Vec<String> {
